@@ -181,6 +181,8 @@ def closure(cell):
         hist = frontier.pop(0)
         for op in ops:
             q = build(hist)
+            if len(viol) < 20:
+                invariants(q, hist)        # read everything BEFORE the operation too: a value remembered from an earlier read must not survive a conversion
             try:
                 apply(q, op)
             except UnitConversionError:
